@@ -32,6 +32,7 @@ pub fn run_enumeration(which: &str, id: &str, thorough: bool, seed: u64, out: &m
         "names" => names(seed, thorough, out),
         "stateless-threads" => {
             stateless_threads(seed, thorough, out);
+            stress_threads(seed, thorough, out);
             if thorough || std::env::var("VERIF_MIRI").is_ok() {
                 miri_threads(seed, out);
             }
@@ -340,6 +341,101 @@ fn names(seed: u64, thorough: bool, out: &mut EnumOut) {
 enum TOp {
     Write { nonce: u64, payload: Vec<u8>, expect: Vec<u8> },
     Read { nonce: u64, msg: Vec<u8>, expect: Option<Vec<u8>> },
+}
+
+fn stateless_pair_named(seed: u64, name: &str, backend: crate::seam::Backend) -> Option<(snow::StatelessTransportState, snow::StatelessTransportState, crate::refnoise::RefTransport, crate::refnoise::RefTransport)> {
+    let mut rng = crate::run::gen_rng(seed);
+    let opts = crate::scen::CfgOpts { force_name: Some(name.to_string()), force_backend: Some(backend), ..Default::default() };
+    let cfg = crate::scen::gen_cfg(&mut rng, 0, "stateless-stress", &opts);
+    let mut w = World::new(cfg);
+    {
+        let mut d = crate::scen::Driver::new(&mut w, &mut rng);
+        let p = crate::scen::Profile { stateless: 1000, ..Default::default() };
+        if !d.handshake(0, &p) {
+            return None;
+        }
+        d.convert(0, &p);
+    }
+    let mut nodes = std::mem::take(&mut w.nodes);
+    let b = nodes.pop()?;
+    let a = nodes.pop()?;
+    match (a.st, b.st, a.trm, b.trm) {
+        (St::Sl(x), St::Sl(y), Some(ta), Some(tb)) => Some((*x, *y, ta, tb)),
+        _ => None,
+    }
+}
+
+/// Supplementary layer (NOT deterministic simulation): real OS threads released together on one
+/// shared stateless session right after a key change, results compared with the model. The
+/// scheduler is the operating system's, so a failure cannot be replayed exactly; it is still a
+/// genuine violation because every expected value is a pure function computed by the model. It
+/// exists because neither shuttle (no scheduling point inside a call) nor Miri (cannot execute
+/// ring's C/asm) can reach a race inside a backend wrapper.
+fn stress_threads(seed: u64, thorough: bool, out: &mut EnumOut) {
+    use std::sync::atomic::{AtomicBool, Ordering};
+    let rounds = if thorough { 20_000 } else { 2_500 };
+    let mut total = 0u64;
+    for (name, backend) in [
+        ("Noise_NN_25519_AESGCM_SHA256", crate::seam::Backend::RingFirst),
+        ("Noise_NN_25519_ChaChaPoly_SHA256", crate::seam::Backend::RingFirst),
+        ("Noise_NN_25519_AESGCM_BLAKE2s", crate::seam::Backend::Default),
+        ("Noise_NN_25519_XChaChaPoly_SHA512", crate::seam::Backend::Default),
+    ] {
+        let (mut sa, _sb, mut ta, _tb) = match stateless_pair_named(mix(seed, 0x57E55), name, backend) {
+            Some(x) => x,
+            None => {
+                out.harness_errors.push(format!("stress: cannot set up {name}"));
+                continue;
+            },
+        };
+        let mut bad: Option<String> = None;
+        let rounds = if backend == crate::seam::Backend::RingFirst { rounds * 2 } else { rounds / 2 };
+        for round in 0..rounds {
+            // key change, then the first uses of the new key happen concurrently
+            sa.rekey_outgoing();
+            let d = ta.send_dir();
+            ta.rekey_dir(d);
+            let go = AtomicBool::new(false);
+            let st = &sa;
+            let model = &ta;
+            let results: Vec<bool> = std::thread::scope(|sc| {
+                let hs: Vec<_> = (0..4u64)
+                    .map(|t| {
+                        let go = &go;
+                        sc.spawn(move || {
+                            let nonce = round as u64 * 8 + t;
+                            let payload = [t as u8 + 1; 24];
+                            let expect = model.encrypt_at(model.send_dir(), nonce, &payload);
+                            let mut buf = [0u8; 40];
+                            while !go.load(Ordering::Acquire) {
+                                std::hint::spin_loop();
+                            }
+                            match st.write_message(nonce, &payload, &mut buf) {
+                                Ok(n) => buf[..n] == expect[..],
+                                Err(_) => false,
+                            }
+                        })
+                    })
+                    .collect();
+                go.store(true, Ordering::Release);
+                hs.into_iter().map(|h| h.join().unwrap_or(false)).collect()
+            });
+            total += 4;
+            if results.iter().any(|ok| !ok) {
+                bad = Some(format!("{name} ({backend:?}) round {round}: a concurrent stateless write differs from the pure function of (key, nonce, payload)"));
+                break;
+            }
+        }
+        if let Some(b) = bad {
+            out.viol.push((
+                Violation { prop: "C16".into(), clause: "os-threads-result-differs".into(), site: "os-threads/uncontrolled-scheduler".into(), detail: b, op_index: 0 },
+                None,
+            ));
+        }
+    }
+    out.evaluations += total;
+    *out.probes.entry("os-thread-stress-calls").or_insert(0) += total;
+    out.summary.push(json!({"enumeration": "stateless OS-thread stress after key changes (supplementary, uncontrolled scheduler, not replayable; see DESIGN 12)", "calls": total}));
 }
 
 fn stateless_pair(seed: u64, idx: u64) -> Option<(snow::StatelessTransportState, snow::StatelessTransportState, crate::refnoise::RefTransport, crate::refnoise::RefTransport, String)> {
